@@ -482,6 +482,13 @@ func (m *c16mon) flushShell(rig *shellRig) {
 }
 
 func runC16(c *fw.Ctx) {
+	// before anything else in this process touches the package
+	if c.Begin(1<<24 + c.Block) {
+		if msg := shellFirstUse(); msg != "" {
+			c.Fail(map[string]any{"phase": "first use of the shell package in a fresh process, from 16 goroutines at once"}, "%s", msg)
+		}
+		c.Add("first_use_from_many_goroutines", 1)
+	}
 	rig := newShellRig()
 	defer rig.close()
 	if c.Block == 0 && len(rig.shells) < 2 {
